@@ -112,19 +112,19 @@ theorem coupled_topic {s : Srv} {b : Bot} (hw : SrvWF s) (hc : Coupled s b) (src
           rw [hbc] at hrel0
           have hchan : b0.chan sc.name = some ch := by rw [Bot.chan, hcw.key]; exact hbc
           simp only [Bot.stateCmd, cmdOf_TOPIC, Bot.doTopic, hchan]
-          refine coupled_update' hc0 hw.chansNodup (lower c) rfl rfl rfl hnd' ?_ ?_ ?_ rfl rfl rfl rfl rfl ?_ ?_
+          refine coupled_update' hc0 (lower c) rfl rfl rfl rfl rfl rfl ?_ ?_ ?_ rfl rfl rfl rfl rfl ?_ ?_
           · intro k hk; exact aget_aset_ne _ _ (Ne.symm hk)
           · intro k hk; simp only [Bot.setChan, hcw.key]; exact aget_aset_ne _ _ (Ne.symm hk)
           · simp only [Bot.setChan, hcw.key, aget_aset_self, ChanRel]
-            exact ⟨hrel0.1, ⟨hrel0.2.users, hrel0.2.ops, hrel0.2.halfops, hrel0.2.voices, rfl, hrel0.2.modes, hrel0.2.bans⟩⟩
+            exact ⟨hrel0.1, { hrel0.2 with topic := rfl }⟩
           · intro sc0 sc' h0 h' hb'
             rw [hch] at h0; cases h0
             rw [aget_aset_self] at h'; cases h'
-            exact ⟨hb', fun k hk => hk⟩
+            exact hb'
           · intro sc' h0; rw [hch] at h0; cases h0
       · -- not on the channel: nothing is sent
         simp only [hb, Bool.false_eq_true, ↓reduceIte, recvAll_nil]
-        refine coupled_update' hc hw.chansNodup (lower c) rfl rfl rfl hnd' ?_ (fun _ _ => rfl) ?_ rfl rfl rfl rfl rfl ?_ ?_
+        refine coupled_update' hc (lower c) rfl rfl rfl rfl rfl rfl ?_ (fun _ _ => rfl) ?_ rfl rfl rfl rfl rfl ?_ ?_
         · intro k hk; exact aget_aset_ne _ _ (Ne.symm hk)
         · simp only [aget_aset_self]
           have hb' : sc.has s.botKey = false := by simpa [Srv.botIn] using hb
@@ -134,24 +134,25 @@ theorem coupled_topic {s : Srv} {b : Bot} (hw : SrvWF s) (hc : Coupled s b) (src
         · intro sc0 sc' h0 h' hb'
           rw [hch] at h0; cases h0
           rw [aget_aset_self] at h'; cases h'
-          exact ⟨hb', fun k hk => hk⟩
+          exact hb'
         · intro sc' h0; rw [hch] at h0; cases h0
   · exact hc
 
-/-! ### connect, CHGHOST: only the users table changes -/
+/-! ### connect, CHGHOST: only the users table (and what the bot has been told) changes -/
 
-theorem coupled_users_update {s : Srv} {b b' : Bot} (hc : Coupled s b) (k : Str) (u' : SUser)
+theorem coupled_users_update {s : Srv} {b b' : Bot} (hc : Coupled s b) (k : Str) (u' : SUser) (told' : List Str)
     (hnick : b'.nick = b.nick) (hch : b'.channels = b.channels)
     (hcn : b'.cfgNick = b.cfgNick) (hci : b'.cfgIdent = b.cfgIdent)
     (hn2h : ∀ k', k' ≠ k → aget b'.n2h k' = aget b.n2h k')
-    (hk : s.visible k = true → aget b'.n2h k = some u'.mask)
+    (hsub : ∀ x, x ∈ told' → x ≠ k → x ∈ s.told)
+    (hk : k ∈ told' → aget b'.n2h k = some u'.mask)
     (hpfx : k ≠ s.botKey → b'.pfx = b.pfx)
     (hpfx' : k = s.botKey → ∀ kc sc, aget s.chans kc = some sc → sc.has s.botKey = true → b'.pfx = u'.mask) :
-    Coupled { s with users := aset s.users k u' } b' := by
+    Coupled { s with users := aset s.users k u', told := told' } b' := by
   refine ⟨by rw [hnick]; exact hc.nick, ?_, ?_, ?_, by rw [hcn]; exact hc.cfgNick, by rw [hci]; exact hc.cfgIdent⟩
   · intro kc; rw [hch]; exact hc.chans kc
   · intro k' u hu hv
-    have hv' : s.visible k' = true := hv
+    have hv' : k' ∈ told' := hv
     have hu' : aget (aset s.users k u') k' = some u := hu
     rw [aget_aset] at hu'
     by_cases e : k = k'
@@ -160,7 +161,7 @@ theorem coupled_users_update {s : Srv} {b b' : Bot} (hc : Coupled s b) (k : Str)
       subst hu'; exact hk hv'
     · simp only [e, ↓reduceIte] at hu'
       rw [hn2h k' (Ne.symm e)]
-      exact hc.hosts k' u hu' hv'
+      exact hc.hosts k' u hu' (hsub k' hv' (Ne.symm e))
   · intro kc sc hsc hb
     have hsc' : aget s.chans kc = some sc := hsc
     have hb' : sc.has s.botKey = true := hb
@@ -173,11 +174,6 @@ theorem coupled_users_update {s : Srv} {b b' : Bot} (hc : Coupled s b) (k : Str)
       rw [hpfx e]
       exact hc.pfx kc sc hsc' hb'
 
-theorem visible_user {s : Srv} (hw : SrvWF s) {k : Str} (hv : s.visible k = true) : (aget s.users k).isSome := by
-  obtain ⟨kc, sc, hsc, _, h2⟩ := (visible_iff hw.chansNodup).mp hv
-  obtain ⟨f, hf⟩ := has_iff.mp h2
-  exact (hw.chans kc sc hsc).members (k, f) hf
-
 theorem coupled_connect {s : Srv} {b : Bot} (hw : SrvWF s) (hc : Coupled s b) (n i ho : Str) :
     Coupled (s.step (.connect n i ho)).1 (b.recvAll (s.step (.connect n i ho)).2) := by
   simp only [Srv.step]
@@ -186,10 +182,9 @@ theorem coupled_connect {s : Srv} {b : Bot} (hw : SrvWF s) (hc : Coupled s b) (n
     simp only [Bool.and_eq_true, Option.isNone_iff_eq_none] at hcond
     have hfree : aget s.users (lower n) = none := hcond.2
     simp only [recvAll_nil]
-    refine coupled_users_update hc (lower n) ⟨n, i, ho⟩ rfl rfl rfl rfl (fun _ _ => rfl) ?_ (fun _ => rfl) ?_
-    · intro hv
-      have := visible_user hw hv
-      rw [hfree] at this; cases this
+    refine coupled_users_update hc (lower n) ⟨n, i, ho⟩ _ rfl rfl rfl rfl (fun _ _ => rfl) ?_ ?_ (fun _ => rfl) ?_
+    · intro x hx _; exact (mem_sdel.mp hx).2
+    · intro hx; exact absurd rfl (mem_sdel.mp hx).1
     · intro e
       obtain ⟨ub, hub, _⟩ := hw.bot
       rw [e] at hfree
@@ -221,16 +216,16 @@ theorem coupled_chghost {s : Srv} {b : Bot} (hw : SrvWF s) (hc : Coupled s b) (n
     · exact hc
     · rename_i hcond
       simp only [Bool.or_eq_true, Bool.not_eq_eq_eq_not, Bool.not_true, not_or, Bool.not_eq_false] at hcond
-      obtain ⟨⟨_, hi⟩, hh⟩ := hcond
+      obtain ⟨hi, hh⟩ := hcond
       have huo := hw.uok hu
       have hio := wordOK_of_valid hi
       have hho := wordOK_of_valid hh
       have hkey := (hw.userOK hu).1
       have hbn : NickOK b.nick := by rw [hc.nick]; exact hw.botNickOK
-      by_cases hsee : (decide (lower n = s.botKey) || s.visible (lower n)) = true
-      · simp only [hsee, ↓reduceIte, recvAll_cons, recv_emit, recvAll_nil]
+      split
+      · -- announced
+        simp only [recvAll_cons, recv_emit, recvAll_nil]
         have hne : u.mask ≠ b.nick := mask_ne_nick hbn
-        -- what the bot does with the CHGHOST
         have hfeed : (b.feed ⟨u.mask, "CHGHOST".toList, [i, ho]⟩).1 =
             { b with pfx := if u.nick = b.nick then mkHostmask u.nick i ho else b.pfx,
                      n2h := aset (aset b.n2h (lower u.nick) u.mask) (lower u.nick) (mkHostmask u.nick i ho) } := by
@@ -258,10 +253,14 @@ theorem coupled_chghost {s : Srv} {b : Bot} (hw : SrvWF s) (hc : Coupled s b) (n
           simp only [Bot.stateCmd, cmdOf_CHGHOST, Bot.doChghost, msg_nick_user huo]
         rw [hfeed]
         have hmask : mkHostmask u.nick i ho = ({ u with ident := i, host := ho } : SUser).mask := rfl
-        refine coupled_users_update hc (lower n) { u with ident := i, host := ho } rfl rfl rfl rfl ?_ ?_ ?_ ?_
+        refine coupled_users_update hc (lower n) { u with ident := i, host := ho } _ rfl rfl rfl rfl ?_ ?_ ?_ ?_ ?_
         · intro k' hk'
           show aget (aset (aset b.n2h (lower u.nick) u.mask) (lower u.nick) (mkHostmask u.nick i ho)) k' = _
           rw [hkey, aget_aset_ne _ _ (Ne.symm hk'), aget_aset_ne _ _ (Ne.symm hk')]
+        · intro x hx hne'
+          rcases mem_sadd.mp hx with e | e
+          · exact absurd e hne'
+          · exact e
         · intro _
           show aget (aset (aset b.n2h (lower u.nick) u.mask) (lower u.nick) (mkHostmask u.nick i ho)) (lower n) = _
           rw [hkey, aget_aset_self, hmask]
@@ -273,11 +272,14 @@ theorem coupled_chghost {s : Srv} {b : Bot} (hw : SrvWF s) (hc : Coupled s b) (n
           show (if u.nick = b.nick then mkHostmask u.nick i ho else b.pfx) = _
           have : u.nick = b.nick := (own_iff hw hc hu).mpr hk
           rw [if_pos this]; exact hmask
-      · have hsee' : (decide (lower n = s.botKey) || s.visible (lower n)) = false := by simpa using hsee
-        simp only [hsee', Bool.false_eq_true, ↓reduceIte, recvAll_nil]
-        simp only [Bool.or_eq_false_iff, decide_eq_false_iff_not] at hsee'
-        refine coupled_users_update hc (lower n) { u with ident := i, host := ho } rfl rfl rfl rfl (fun _ _ => rfl) ?_ (fun _ => rfl) ?_
-        · intro hv; rw [hsee'.2] at hv; cases hv
-        · intro e; exact absurd e hsee'.1
+      · split
+        · exact hc
+        · -- nobody tells the bot
+          rename_i hnb
+          simp only [recvAll_nil]
+          refine coupled_users_update hc (lower n) { u with ident := i, host := ho } _ rfl rfl rfl rfl (fun _ _ => rfl) ?_ ?_ (fun _ => rfl) ?_
+          · intro x hx _; exact (mem_sdel.mp hx).2
+          · intro hx; exact absurd rfl (mem_sdel.mp hx).1
+          · intro e; exact absurd e hnb
 
 end C10
